@@ -272,48 +272,57 @@ Lemma lock_released_early_refuted :
 Proof. split; reflexivity. Qed.
 
 (* ---------- websocket opening handshake ---------- *)
-Lemma ws_dial_https_stays rs : forall n s, ws_dial Https rs n = Some s -> s = Https.
+(* a chain that starts on https stays on https, every handshake of it succeeded *)
+Lemma ws_dial_https_chain rs : forall ok n s,
+  ws_dial ok Https rs n = Some s -> s = Https /\ Forall (fun x => x = Https) rs /\ ok = true.
 Proof.
-  induction rs as [|nxt rs IH]; intros n s; cbn [ws_dial].
-  - intros H. injection H as <-. reflexivity.
-  - destruct (Nat.leb 10 (S n)); [discriminate|]. destruct nxt; [apply IH|discriminate].
+  induction rs as [|nxt rs IH]; intros ok n s; cbn [ws_dial]; destruct ok; try discriminate.
+  - intros H. injection H as <-. repeat split. constructor.
+  - destruct (Nat.leb 10 (S n)); [discriminate|]. destruct nxt; [|discriminate].
+    intros H. destruct (IH _ _ _ H) as (H1 & H2 & H3). repeat split; [exact H1|constructor; [reflexivity|exact H2]].
 Qed.
 
 (* once a URL of the chain is https, the connection established is TLS *)
-Lemma ws_dial_no_downgrade rs : forall cur n s,
-  ws_dial cur rs n = Some s -> (cur = Https \/ In Https rs) -> s = Https.
+Lemma ws_dial_no_downgrade rs : forall ok cur n s,
+  ws_dial ok cur rs n = Some s -> (cur = Https \/ In Https rs) -> s = Https.
 Proof.
-  induction rs as [|nxt rs IH]; intros cur n s; cbn [ws_dial].
-  - intros H [->|[]]. injection H as <-. reflexivity.
-  - destruct (Nat.leb 10 (S n)); [discriminate|].
-    intros H Hin. destruct cur.
-    + destruct nxt; [|discriminate]. eapply IH; [exact H|left; reflexivity].
-    + eapply IH; [exact H|]. destruct Hin as [Hc|[Hn|Hr]]; [discriminate|left; exact Hn|right; exact Hr].
+  induction rs as [|nxt rs IH]; intros ok cur n s H Hin.
+  - destruct Hin as [->|[]]. apply ws_dial_https_chain in H. apply H.
+  - destruct cur.
+    + apply ws_dial_https_chain in H. apply H.
+    + cbn [ws_dial] in H. destruct (Nat.leb 10 (S n)); [discriminate|].
+      eapply IH; [exact H|]. destruct Hin as [Hc|[Hn|Hr]]; [discriminate|left; exact Hn|right; exact Hr].
 Qed.
 
-Lemma ws_connect_auth_tls insecure addr rs b :
-  insecure = false -> ws_connect insecure addr rs = WAuth b -> b = true.
+(* an https endpoint was reached only through a successful handshake *)
+Lemma ws_dial_tls_verified rs : forall ok cur n, ws_dial ok cur rs n = Some Https -> ok = true.
 Proof.
-  intros -> . unfold ws_connect. destruct (ws_dial addr rs 0) as [s|]; [|discriminate].
-  destruct s; cbn; [|discriminate]. intros H. injection H as <-. reflexivity.
+  induction rs as [|nxt rs IH]; intros ok cur n H.
+  - destruct cur; [apply ws_dial_https_chain in H; apply H|].
+    cbn in H. discriminate.
+  - destruct cur; [apply ws_dial_https_chain in H; apply H|].
+    cbn [ws_dial] in H. destruct (Nat.leb 10 (S n)); [discriminate|]. eapply IH; exact H.
 Qed.
 
-Lemma ws_connect_wss_never_clear insecure rs : ws_connect insecure Https rs <> WAuth false.
+(* authentication data is written only when the application allowed insecure connections, or the
+   configured address is a wss:// one, every URL of the chain is https, every handshake succeeded under
+   the application's TLS configuration, and the connection is TLS *)
+Lemma ws_connect_credentials insecure ok addr rs b :
+  ws_connect insecure ok addr rs = WAuth b ->
+  insecure = true \/ (addr = Https /\ Forall (fun x => x = Https) rs /\ ok = true /\ b = true).
 Proof.
-  unfold ws_connect. destruct (ws_dial Https rs 0) as [s|] eqn:E; [|discriminate].
-  apply ws_dial_https_stays in E. subst s. cbn. discriminate.
+  unfold ws_connect, ws_is_secure. destruct (ws_dial ok addr rs 0) as [s|] eqn:E; [|discriminate].
+  destruct insecure; [left; reflexivity|]. rewrite orb_false_r.
+  destruct addr; cbn [ws_secure andb]; [|discriminate].
+  destruct (ws_dial_https_chain _ _ _ _ E) as (-> & Hf & Hok). cbn. intros H. injection H as <-.
+  right. repeat split; assumption.
 Qed.
 
-(* authentication data in clear text on a websocket: only when the application allowed it AND no URL
-   of the chain, the configured address included, was a TLS one *)
-Lemma ws_connect_clear_auth insecure addr rs :
-  ws_connect insecure addr rs = WAuth false ->
-  insecure = true /\ addr = Http /\ ~ In Https rs.
+(* whatever Insecure says: data written over TLS went to an endpoint whose handshake succeeded *)
+Lemma ws_connect_tls_verified insecure ok addr rs :
+  ws_connect insecure ok addr rs = WAuth true -> ok = true.
 Proof.
-  unfold ws_connect. destruct (ws_dial addr rs 0) as [s|] eqn:E; [|discriminate].
-  destruct s; cbn; [discriminate|].
-  destruct insecure; [|discriminate]. intros _. split; [reflexivity|].
-  split.
-  - destruct addr; [|reflexivity]. apply ws_dial_https_stays in E. discriminate.
-  - intros Hin. assert (Http = Https) by (eapply ws_dial_no_downgrade; [exact E|right; exact Hin]). discriminate.
+  unfold ws_connect. destruct (ws_dial ok addr rs 0) as [s|] eqn:E; [|discriminate].
+  destruct (ws_is_secure addr s || insecure); [|discriminate].
+  destruct s; cbn; [|discriminate]. intros _. eapply ws_dial_tls_verified; exact E.
 Qed.
